@@ -258,6 +258,70 @@ class RawBodyParser(tr_rect.BodyParser):
                 continue
             return e
 
+    def parse_prefix(self, nostruct):
+        c = self.c
+        if c.at("&") and c.at("mut", 1):
+            t = c.next()
+            c.next()
+            return ("refmut", t.line, self.parse_prefix(nostruct))
+        return super().parse_prefix(nostruct)
+
+    def parse_block_body(self):
+        """tr_rect.BodyParser.parse_block_body (copied: it is one loop) plus `const NAME: T = e;` (read as a `let`) and
+        `for PAT in EXPR { .. }` (a statement)."""
+        c = self.c
+        stmts, tail = [], None
+        while not c.eof():
+            if tail is not None:
+                self.fail("expression in the middle of a block without `;`")
+            if c.at(";"):
+                c.next()
+                continue
+            if c.at("let") or (c.at("const") and c.peek(1) is not None and c.peek(1).kind == "id" and c.peek(1).text != "fn"):
+                t = c.next()
+                mut = False
+                if c.at("mut"):
+                    c.next()
+                    mut = True
+                pat = self.parse_pattern()
+                ty = None
+                if c.at(":"):
+                    c.next()
+                    ty = parse_type2(c)
+                c.expect("=")
+                e = self.parse_expr()
+                if c.at("else"):
+                    self.fail("let-else not supported")
+                c.expect(";")
+                stmts.append(("let", t.line, pat, ty, e, mut))
+                continue
+            if c.at("for"):
+                t = c.next()
+                pat = self.parse_pattern()
+                c.expect("in")
+                it = self.parse_expr(nostruct=True)
+                body = self.parse_braced_block()
+                stmts.append(("expr", t.line, ("for", t.line, pat, it, body)))
+                continue
+            if c.peek().kind == "id" and c.peek().text in ("fn", "struct", "enum", "impl", "use", "static", "loop", "unsafe"):
+                self.fail(f"`{c.peek().text}` inside a body is not supported")
+            e = self.parse_expr(stmt=True)
+            if c.at("=") or (c.peek() and c.peek().kind == "p" and c.peek().text in ("+=", "-=", "*=", "/=", "%=")):
+                op = c.next()
+                rhs = self.parse_expr()
+                c.expect(";")
+                stmts.append(("assign", op.line, op.text, e, rhs))
+            elif c.at(";"):
+                c.next()
+                stmts.append(("expr", e[1], e))
+            elif c.eof():
+                tail = e
+            elif e[0] in ("if", "match", "block", "while"):
+                stmts.append(("expr", e[1], e))
+            else:
+                self.fail(f"expected `;` or end of block after expression, found `{c.peek().text}`")
+        return stmts, tail
+
     def parse_generic_args(self):
         c = self.c
         c.expect("<")
@@ -295,8 +359,9 @@ class RawBodyParser(tr_rect.BodyParser):
             # <T as Trait>::name
             c.next()
             ty = parse_type2(c)
-            c.expect("as")
-            parse_type2(c)
+            if c.at("as"):
+                c.next()
+                parse_type2(c)
             c.expect(">")
             c.expect("::")
             name = c.ident()
@@ -460,6 +525,10 @@ def expand_macros(toks, rel, depth=0):
             while k < len(body):
                 if body[k].text == "$" and body[k].kind == "p":
                     nm = body[k + 1].text
+                    if nm == "crate":
+                        exp.append(body[k + 1])
+                        k += 2
+                        continue
                     if nm not in b:
                         raise TrError(f"{rel}: macro {t.text}: unknown parameter `${nm}`")
                     exp.extend(Tok(x.kind, x.text, t.line, rel) for x in b[nm])
@@ -500,6 +569,10 @@ def expand_with(toks, macros, rel, depth, counts):
             while k < len(body):
                 if body[k].text == "$" and body[k].kind == "p":
                     nm = body[k + 1].text
+                    if nm == "crate":
+                        exp.append(body[k + 1])
+                        k += 2
+                        continue
                     if nm not in b:
                         raise TrError(f"{rel}: macro {t.text}: unknown parameter `${nm}`")
                     exp.extend(b[nm])
@@ -533,9 +606,12 @@ class Item:
         self.rel = None
         self.line = 0
         self.assoc = {}            # associated types of the enclosing impl
+        self.spec = ""             # concrete type arguments of the enclosing impl (`Framebuffer<C, RawU1, ..>` -> "RawU1")
+        self.color_raw = {}        # colour generics: name -> raw type (`C: PixelColor<Raw = RawU1>`)
+        self.aliases = {}          # fn-level generics that stand for a known type (`I: IntoIterator<Item = Pixel<..>>`)
 
     def key(self):
-        return (self.impl_type, self.trait, self.name)
+        return (self.impl_type + ("<" + self.spec + ">" if self.spec else "") if self.impl_type else None, self.trait, self.name)
 
 
 class Prog:
@@ -546,13 +622,63 @@ class Prog:
         self.order = []
 
 
+def parse_where(c, stop):
+    """cursor after `where`: predicates up to (not including) the token `stop`. Returns ({name: bound}, {name: {assoc: type}}).
+    `for<'a> ..` predicates (higher-ranked bounds on helper types) are skipped."""
+    bounds, assoc = {}, {}
+    while not c.at(stop):
+        if c.at("for"):
+            depth = 0
+            while not (depth == 0 and (c.at(",") or c.at(stop))):
+                t = c.next()
+                if t.text in ("<", "("):
+                    depth += 1
+                elif t.text in (">", ")"):
+                    depth -= 1
+        else:
+            n = c.ident()
+            c.expect(":")
+            while True:
+                b = c.ident()
+                while c.at("::"):
+                    c.next()
+                    b = c.ident()
+                bounds.setdefault(n, b)
+                if c.at("<"):
+                    c.next()
+                    while not c.at(">"):
+                        an = c.ident()
+                        if c.at("="):
+                            c.next()
+                            assoc.setdefault(n, {})[an] = parse_type2(c)
+                        elif c.at("<"):
+                            c.skip_balanced("<", ">")
+                        if c.at(","):
+                            c.next()
+                    c.expect(">")
+                if c.at("+"):
+                    c.next()
+                    continue
+                break
+        if c.at(","):
+            c.next()
+    return bounds, assoc
+
+
 def parse_generics(c):
-    """cursor at `<`: [(name, bound or None)]"""
+    """cursor at `<`: [(name, bound or None)]; `const N: usize` has the bound "const"."""
     out = []
     c.expect("<")
     while not c.at(">"):
         if c.peek().kind == "life":
             c.next()
+        elif c.at("const"):
+            c.next()
+            n = c.ident()
+            c.expect(":")
+            if c.ident() != "usize":
+                raise TrError(f"const generic `{n}` is not a usize")
+            out.append((n, "const"))
         else:
             n = c.ident()
             b = None
@@ -591,7 +717,7 @@ def skip_attrs(c):
     return test
 
 
-def scan_items(c, prog, rel, impl_type=None, trait=None, impl_generics=(), assoc=None):
+def scan_items(c, prog, rel, impl_type=None, trait=None, impl_generics=(), assoc=None, impl_info=None):
     while not c.eof():
         skip = skip_attrs(c)
         if c.eof():
@@ -647,26 +773,36 @@ def scan_items(c, prog, rel, impl_type=None, trait=None, impl_generics=(), assoc
             while c.at("::"):
                 c.next()
                 first.append(c.ident())
+            targs = None
             if c.at("<"):
-                c.skip_balanced("<", ">")
+                s0, e0 = c.skip_balanced("<", ">")
+                targs = [t_.text for t_ in c.t[s0:e0]]
             tr_name, ty = None, first[-1]
             if c.at("for"):
                 c.next()
                 tr_name = first[-1]
+                targs = None
                 if c.at("("):
                     c.skip_balanced("(", ")")
                     ty = "()"
                 else:
                     ty = c.ident()
                     if c.at("<"):
-                        c.skip_balanced("<", ">")
+                        s0, e0 = c.skip_balanced("<", ">")
+                        targs = [t_.text for t_ in c.t[s0:e0]]
+            wb, wa = {}, {}
+            if c.at("where"):
+                c.next()
+                wb, wa = parse_where(c, "{")
             s, e = c.skip_balanced("{", "}")
             if skip or ty == "()" or ty in [g for g, _ in gens]:
                 continue            # `impl ToBytes for ()`, blanket `impl<C: PixelColor> ToBytes for C`
+            gens = [(g, b if b is not None else wb.get(g)) for g, b in gens]
             if tr_name:
                 prog.impls.setdefault(tr_name, []).append(ty)
             a = {}
-            scan_items(Cursor(c.t, s, e), prog, rel, ty, tr_name, gens, a)
+            info = {"targs": targs or [], "color_raw": {g: v["Raw"] for g, v in wa.items() if wb.get(g) == "PixelColor" and "Raw" in v}}
+            scan_items(Cursor(c.t, s, e), prog, rel, ty, tr_name, gens, a, info)
         elif c.at("type"):
             c.next()
             n = c.ident()
@@ -729,12 +865,22 @@ def scan_items(c, prog, rel, impl_type=None, trait=None, impl_generics=(), assoc
                 c.next()
                 it.ret = parse_type2(c)
             if c.at("where"):
-                raise TrError(f"{rel}:{t.line}: `where` clause on fn {it.name} not supported")
+                c.next()
+                wb, wa = parse_where(c, "{")
+                for g, b in wb.items():
+                    if b == "IntoIterator" and wa.get(g, {}).get("Item") == "Pixel":
+                        it.aliases[g] = "pixels"
+                    else:
+                        raise TrError(f"{rel}:{t.line}: `where {g}: {b}` on fn {it.name} not supported")
             if c.at(";"):
                 c.next()
                 continue
             s, e = c.skip_balanced("{", "}")
             it.body = (c.t, s, e)
+            if impl_info:
+                it.color_raw = dict(impl_info["color_raw"])
+                known = prog.impls.get("RawData", []) + prog.impls.get("DataOrder", [])
+                it.spec = "_".join(a for a in impl_info["targs"] if a in known)
             if not skip:
                 if it.key() in prog.items:
                     raise TrError(f"{rel}:{t.line}: duplicate definition of {it.key()}")
@@ -783,9 +929,10 @@ ASSOC_FNS = {
     ("u32", "from_be_bytes"): ("u32_from_be_bytes", ["slice"], "u32"),
     ("u32", "from_le_bytes"): ("u32_from_le_bytes", ["slice"], "u32"),
 }
+ASSOC_FNS[("usize", "try_from")] = ("usize_try_from_i32", ["i32"], ("Result", "usize"))
 ASSOC_CONSTS = {("u8", "MAX"): ("u8_MAX", "u8"), ("u16", "MAX"): ("u16_MAX", "u16"), ("u32", "MAX"): ("u32_MAX", "u32"),
                 ("u8", "BITS"): ("u8_BITS", "u32"), ("u16", "BITS"): ("u16_BITS", "u32"), ("u32", "BITS"): ("u32_BITS", "u32")}
-CASTS = {("u32", "u8"): "u32_as_u8", ("u32", "u16"): "u32_as_u16", ("u32", "u32"): "u32_as_u32"}
+CASTS = {("i32", "usize"): "i32_as_usize", ("u32", "u8"): "u32_as_u8", ("u32", "u16"): "u32_as_u16", ("u32", "u32"): "u32_as_u32"}
 
 
 def strip_allow_attrs(toks):
@@ -820,7 +967,8 @@ class Emitter:
 
     # ---- names and types
     def fname(self, it):
-        base = it.name if it.impl_type is None else (f"{it.impl_type}_{it.trait}_{it.name}" if it.trait else f"{it.impl_type}_{it.name}")
+        ty = it.impl_type + ("_" + it.spec if it.spec else "") if it.impl_type else None
+        base = it.name if ty is None else (f"{ty}_{it.trait}_{it.name}" if it.trait else f"{ty}_{it.name}")
         return base
 
     @staticmethod
@@ -839,6 +987,12 @@ class Emitter:
             return (t[0], self.norm(t[1], it))
         if t == "Self":
             return it.impl_type
+        if t in it.color_raw:
+            return "color:" + it.color_raw[t]
+        if t in it.aliases:
+            return it.aliases[t]
+        if t == "Infallible":
+            return "err"
         return t
 
     def lean_type(self, t, it=None):
@@ -847,6 +1001,8 @@ class Emitter:
                 return "(" + " × ".join(self.lean_type(x, it) for x in t[1]) + ")"
             if t[0] == "Option":
                 return f"(Option {self.lean_type(t[1], it)})"
+            if t[0] == "Result":
+                return f"(Result {self.lean_type(t[1], it)})"
             raise TrError(f"no Lean type for {t}")
         if t in INTS or t in self.raw_types:
             return "Nat"
@@ -860,6 +1016,14 @@ class Emitter:
             return "(List Nat)"
         if t in self.prog.structs and isinstance(self.prog.structs[t], list):
             return t
+        if t == "Point":
+            return "EG.Pt"
+        if t == "pixels":
+            return "(List (EG.Pt × Nat))"
+        if t == "i32":
+            return "Int"
+        if isinstance(t, str) and t.startswith("color:"):
+            return "Nat"
         if it is not None and t in dict(it.generics):
             return "Nat"
         raise TrError(f"no Lean type for `{t}`")
@@ -868,8 +1032,9 @@ class Emitter:
         return t in self.raw_types or (t in ctx.gen and ctx.gen[t] == "RawData")
 
     # ---- lookup
-    def find(self, impl_type, name, where, trait=None):
-        c = [it for k, it in self.prog.items.items() if k[0] == impl_type and k[2] == name and (trait is None or k[1] == trait)]
+    def find(self, impl_type, name, where, trait=None, spec=None):
+        c = [it for k, it in self.prog.items.items() if it.impl_type == impl_type and k[2] == name and (trait is None or k[1] == trait)
+             and (spec is None or it.spec == spec)]
         if len(c) != 1:
             raise TrError(f"{where}: `{impl_type}::{name}` " + ("not found in the parsed sources" if not c else "is ambiguous"))
         return c[0]
@@ -928,6 +1093,8 @@ class Emitter:
             if r != ("Result", "unit"):
                 raise TrError(f"{it.rel}:{it.line}: fn with a `&mut [u8]` parameter must return Result<(), _>")
             return "StoreRes"
+        if it.self_kind == "refmut" and r == "unit":
+            return it.impl_type
         lt = self.lean_type(r, it)
         if it.self_kind == "refmut":
             return f"({lt} × {it.impl_type})"
@@ -949,10 +1116,10 @@ class Emitter:
                 stmts, tail = bp.parse_block_body()
         env = {}
         ps = []
-        for g, b in it.generics:
-            if b not in BOUND_ENUM:
-                raise TrError(f"{where}: generic `{g}: {b}` not supported")
-            ps.append(f"({g} : {BOUND_ENUM[b]})")
+        for g, b in self.sig_generics(it, where):
+            ps.append(f"({g} : {b})")
+            if b == "Nat":
+                env[g] = "usize"
         if it.self_kind:
             env["self"] = it.impl_type
             ps.append(f"(self : {self.lean_type(it.impl_type, it)})")
@@ -968,7 +1135,19 @@ class Emitter:
                 pre = f"  let {self.lvar(n)} := mutslice_root {self.lvar(n)};\n"
         ret = self.norm(it.ret, it)
         try:
-            body, bt = self.block(stmts, tail, env, ctx, "  ", final=True)
+            if ctx.mut_self and self.norm(it.ret, it) == "unit":
+                if tail is not None and tail[0] in ("if", "match", "for"):
+                    stmts, tail = stmts + [("expr", tail[1], tail)], None
+                if tail is not None:
+                    raise TrError("a `&mut self` fn returning () with a tail expression")
+                body, bt = self.self_block(stmts, env, ctx, "  "), ("withself", "unit")
+                body = body  # the value IS self after the statements
+            elif ctx.mut_self:
+                # the value of a `&mut self` fn is (value, self after): pair them INSIDE the `let` chain
+                body, bt = self.block(stmts, tail, env, ctx, "  ", final=True,
+                                      wrap=lambda v, t: (v, t) if isinstance(t, tuple) and t[0] == "withself" else (f"({v}, self)", ("withself", t)))
+            else:
+                body, bt = self.block(stmts, tail, env, ctx, "  ", final=True)
         except TrError as ex:
             if str(ex).startswith(it.rel) or ".rs:" in str(ex).split(" ")[0]:
                 raise
@@ -979,6 +1158,8 @@ class Emitter:
             if bt != ("Result", "buf"):
                 raise TrError(f"{where}: body of a storing fn has type {bt}, expected Result<buffer>")
             body = f"  store_result {self.lvar(ctx.mutbuf)}\n  ({body.strip()})"
+        elif ctx.mut_self and ret == "unit":
+            pass
         elif ctx.mut_self:
             if not (isinstance(bt, tuple) and bt[0] == "withself"):
                 body, bt = f"  ({body.strip()}, self)", ("withself", bt)
@@ -988,19 +1169,41 @@ class Emitter:
         doc = f"/-- `{'impl ' + (it.trait + ' for ' if it.trait else '') + it.impl_type + ' :: ' if it.impl_type else ''}{it.name}` ({it.rel}) -/\n"
         return doc + f"def {self.fname(it)} " + " ".join(ps) + (" " if ps else "") + ": " + self.result_type(it) + " :=\n" + pre + body + "\n"
 
+    def sig_generics(self, it, where=""):
+        """the generic parameters that become explicit arguments: [(name, lean type)]; colour generics (`C: PixelColor<Raw = X>`)
+        carry no information beyond X and are dropped."""
+        out = []
+        for g, b in it.generics:
+            if b == "const":
+                out.append((g, "Nat"))
+            elif b in BOUND_ENUM:
+                out.append((g, BOUND_ENUM[b]))
+            elif g in it.color_raw or b == "PixelColor":
+                continue
+            else:
+                raise TrError(f"{where}: generic `{g}: {b}` not supported")
+        return out
+
     def unify(self, got, want, where):
         if got == want or got == "lit" and want in INTS:
             return
         raise TrError(f"{where}: type mismatch: got {got}, expected {want}")
 
     # ---- blocks
-    def block(self, stmts, tail, env, ctx, ind, final=False):
+    def block(self, stmts, tail, env, ctx, ind, final=False, wrap=None):
         env = dict(env)
         lines = []
         for st in stmts:
+            if ctx.mut_self and (st[0] == "expr" or (st[0] == "let" and st[2][0] == "pwild")):
+                l = self.self_stmt(st[2] if st[0] == "expr" else st[4], env, ctx, ind, discard=st[0] == "let")
+                if l is not None:
+                    lines.append(l)
+                    continue
             if st[0] == "let":
                 _, line, pat, ty, e, mut = st
                 v, t = self.expr(e, env, ctx)
+                if pat[0] == "ppath" and len(pat[2]) == 1:        # `const NAME: T = ..;` inside a body
+                    pat = ("pbind", pat[1], pat[2][0])
                 if pat[0] == "pbind":
                     env[pat[2]] = t
                     lines.append(f"{ind}let {self.lvar(pat[2])} := {v};\n")
@@ -1046,9 +1249,128 @@ class Emitter:
                 return "".join(lines) + ind + v, "buf"
             raise TrError("block without a value")
         v, t = self.expr(tail, env, ctx)
+        if wrap is not None:
+            v, t = wrap(v, t)
         return "".join(lines) + ind + v, t
 
+    @staticmethod
+    def unit_stmts(block):
+        """the statements of a `{ .. }` used for its effect: a trailing `if` / `match` / `for` without `;` is a statement too.
+        None when the block has a genuine value."""
+        stmts, tail = list(block[2]), block[3]
+        if tail is not None:
+            if tail[0] not in ("if", "match", "for"):
+                return None
+            stmts.append(("expr", tail[1], tail))
+        return stmts
+
+    def self_block(self, stmts, env, ctx, ind):
+        """the statements of a block run for their effect on `self` (no value): Lean text whose value is `self` afterwards."""
+        text, t = self.block(stmts, ("path", 0, ["self"], []), env, ctx, ind)
+        return text
+
+    def lean_pat(self, p, t, env, line):
+        """pattern -> Lean pattern; binds the names in env."""
+        if p[0] == "pwild":
+            return "_"
+        if p[0] == "pbind":
+            env[p[2]] = t
+            return self.lvar(p[2])
+        if p[0] == "ptuple" and isinstance(t, tuple) and t[0] == "tuple" and len(t[1]) == len(p[2]):
+            return "(" + ", ".join(self.lean_pat(q, qt, env, line) for q, qt in zip(p[2], t[1])) + ")"
+        if p[0] == "pctor" and isinstance(t, tuple):
+            ctor = p[2][-1]
+            table = {("Result", "Ok", 1): "Result.ok", ("Result", "Err", 1): "Result.err", ("Option", "Some", 1): "some",
+                     ("Option", "None", 0): "none"}
+            k = (t[0], ctor, len(p[3]))
+            if k in table:
+                if ctor == "Err":
+                    return "Result.err"
+                return "(" + table[k] + "".join(" " + self.lean_pat(q, t[1], env, line) for q in p[3]) + ")" if p[3] else table[k]
+        raise TrError(f"line {line}: pattern not supported for a value of type {t}")
+
+    def self_field_place(self, e, ctx):
+        """`self.f` (also behind `&mut`) -> field name, or None"""
+        if e[0] in ("refmut", "ref"):
+            e = e[2]
+        if e[0] == "field" and e[2][0] == "path" and e[2][2] == ["self"] and ctx.mut_self:
+            return e[3]
+        return None
+
+    def self_stmt(self, e, env, ctx, ind, discard=False):
+        """an expression statement whose effect is on `self`: a `let self := ..;` line, or None when it is not of that kind."""
+        k, line = e[0], e[1]
+        if k == "for":
+            _, _, pat, it, body = e
+            v, t = self.expr(it, env, ctx)
+            if t != "pixels":
+                raise TrError(f"line {line}: `for` over a {t} not supported")
+            if not (pat[0] == "pctor" and pat[2] == ["Pixel"] and len(pat[3]) == 2 and all(q[0] in ("pbind", "pwild") for q in pat[3])):
+                raise TrError(f"line {line}: the pattern of `for` must be `Pixel(p, c)`")
+            env2 = dict(env)
+            col = self.norm(("Self::Color",), ctx.item)
+            names = [self.lean_pat(q, qt, env2, line) for q, qt in zip(pat[3], ["Point", col])]
+            if self.unit_stmts(body) is None:
+                raise TrError(f"line {line}: body of `for` has a value")
+            b = self.self_block(self.unit_stmts(body), env2, ctx, ind + "    ")
+            return f"{ind}let self := for_loop {v} self (fun self ({names[0]}, {names[1]}) =>\n{b});\n"
+        if k == "if" and ctx.mut_self:
+            c, ct = self.expr(e[2], env, ctx)
+            self.unify(ct, "bool", f"line {line}: condition")
+            if self.unit_stmts(e[3]) is None or (e[4] is not None and self.unit_stmts(e[4]) is None):
+                return None
+            a = self.self_block(self.unit_stmts(e[3]), env, ctx, ind + "    ")
+            b = self.self_block(self.unit_stmts(e[4]), env, ctx, ind + "    ") if e[4] is not None else ind + "    self"
+            return f"{ind}let self := if {c} then (\n{a}) else (\n{b});\n"
+        if k == "match" and ctx.mut_self:
+            sc, st = self.expr(e[2], env, ctx)
+            arms = []
+            for pat, body in e[3]:
+                env2 = dict(env)
+                lp = self.lean_pat(pat, st, env2, line)
+                if body[0] == "unit":
+                    b = ind + "      self"
+                elif body[0] == "block" and self.unit_stmts(body) is not None:
+                    b = self.self_block(self.unit_stmts(body), env2, ctx, ind + "      ")
+                else:
+                    return None
+                arms.append(f"{ind}  | {lp} => (\n{b})\n")
+            return f"{ind}let self := match {sc} with\n" + "".join(arms) + f"{ind}  ;\n"
+        if k == "mcall":
+            _, _, recv, name, turbofish, args = e
+            if recv[0] == "path" and recv[2] == ["self"] and ctx.mut_self and turbofish is None:
+                it = self.find(ctx.self_type, name, f"line {line}", spec=ctx.item.spec)
+                if it.self_kind == "refmut" and self.norm(it.ret, it) == "unit":
+                    v, _ = self.call(it, [g for g, _ in self.sig_generics(it)], "self", args, env, ctx, line)
+                    return f"{ind}let self := {v};\n"
+                return None
+            if name == "store" and turbofish is not None and len(args) == 2 and self.self_field_place(args[0], ctx):
+                if not discard:
+                    raise TrError(f"line {line}: the result of `store` must be discarded with `let _ =`")
+                f = self.self_field_place(args[0], ctx)
+                r, rt = self.expr(recv, env, ctx)
+                if rt not in self.raw_types:
+                    raise TrError(f"line {line}: `store` on a {rt}")
+                it = self.find(rt, "store", f"line {line}", "RawData")
+                idx, _ = self.expr(args[1], env, ctx, "usize")
+                g = self.generic_arg(turbofish, ctx, line)
+                return f"{ind}let self := {{ self with {f} := ({self.need(it)} {g} {r} self.{f} {idx}).2 }};\n"
+            if name == "copy_from_slice" and len(args) == 1 and recv[0] == "index" and self.self_field_place(recv[2], ctx) and recv[3][0] == "range":
+                f = self.self_field_place(recv[2], ctx)
+                src, stp = self.expr(args[0], env, ctx)
+                self.unify(stp, "slice", f"line {line}: copy_from_slice")
+                lo, _ = self.expr(recv[3][3], env, ctx, "usize")
+                hi, _ = self.expr(recv[3][4], env, ctx, "usize")
+                return f"{ind}let self := {{ self with {f} := (array_range_copy_from_slice self.{f} {lo} {hi} {src}) }};\n"
+        return None
+
     def assign(self, op, lhs, rhs, env, ctx, line):
+        if lhs[0] == "index" and op == "=" and self.self_field_place(lhs[2], ctx) and lhs[3][0] not in ("range", "rangefrom"):
+            f = self.self_field_place(lhs[2], ctx)
+            i, _ = self.expr(lhs[3], env, ctx, "usize")
+            v, t = self.expr(rhs, env, ctx, "u8")
+            self.unify(t, "u8", f"line {line}: element assigned to self.{f}")
+            return f"let self := {{ self with {f} := (array_index_assign self.{f} {i} {v}) }};"
         # self.field = e / self.field += e
         if lhs[0] == "field" and lhs[2][0] == "path" and lhs[2][2] == ["self"] and ctx.mut_self:
             ft = dict(self.prog.structs[ctx.self_type])[lhs[3]]
@@ -1140,6 +1462,8 @@ class Emitter:
                 if not (isinstance(st, tuple) and st[0] == "tuple"):
                     raise TrError(f"line {line}: `.0` of {t}")
                 return v, st[1]       # single-field tuple struct: transparent
+            if t == "Point" and e[3] in ("x", "y"):
+                return f"(Point_{e[3]} {v})", "i32"
             st = self.prog.structs.get(t)
             if not isinstance(st, list) or e[3] not in dict(st):
                 raise TrError(f"line {line}: field `{e[3]}` of {t}")
@@ -1177,6 +1501,8 @@ class Emitter:
                     if not (fe[0] == "path" and fe[2] == ["PhantomData"]):
                         raise TrError(f"line {line}: PhantomData field `{f}` initialised with something else")
                     continue
+                if ft == "unit":
+                    continue        # `n_assert: Self::CHECK_N`: a compile-time assertion, no run-time content
                 v, t = self.expr(fe, env, ctx, ft if ft in INTS else None)
                 self.unify(t, ft, f"line {line}: field {f}")
                 fs.append(f"{f} := {v}")
@@ -1203,6 +1529,8 @@ class Emitter:
             raise TrError(f"line {line}: unknown name `{n}`")
         if segs[0] == "Self":
             segs[0] = ctx.self_type
+        if len(segs) == 3 and segs[0] in ctx.item.color_raw and segs[1] == "Raw":      # C::Raw::BITS_PER_PIXEL
+            segs = [ctx.item.color_raw[segs[0]], segs[2]]
         if len(segs) == 3 and segs[1] in ctx.item.assoc:          # Self::Storage::MAX
             segs = [self.norm(("Self::" + segs[1],), ctx.item), segs[2]]
         if len(segs) == 2:
@@ -1301,6 +1629,9 @@ class Emitter:
             v, t = self.expr(args[0], env, ctx, self.prog.structs[segs[0]][1])
             self.unify(t, self.prog.structs[segs[0]][1], f"line {line}: field of {segs[0]}")
             return v, segs[0]
+        if segs == ["Ok"] and len(args) == 1:
+            v, t = self.expr(args[0], env, ctx)
+            return f"(Result.ok {v})", ("Result", t)
         if segs == ["Some"] and len(args) == 1:
             v, t = self.expr(args[0], env, ctx)
             return f"(some {v})", ("Option", t)
@@ -1374,6 +1705,8 @@ class Emitter:
         if turbofish is not None:
             raise TrError(f"line {line}: turbofish on method `{name}` not supported")
         r, rt = self.expr(recv, env, ctx)
+        if isinstance(rt, str) and rt.startswith("color:") and name == "into" and not args:
+            return f"(color_into_raw {r})", rt[6:]
         # Option / Result combinators
         if isinstance(rt, tuple) and rt[0] in ("Option", "Result"):
             kind, inner = rt
@@ -1401,7 +1734,7 @@ class Emitter:
             it = self.find(rt, name, f"line {line}")
             if not it.self_kind:
                 raise TrError(f"line {line}: `{name}` has no receiver")
-            gens = [g for g, _ in it.generics]
+            gens = [g for g, _ in self.sig_generics(it)]
             v, t = self.call(it, gens, r, args, env, ctx, line)
             if it.self_kind == "refmut":
                 if not (recv[0] == "path" and recv[2] == ["self"] and ctx.mut_self):
@@ -1516,7 +1849,66 @@ def translate(repo):
     text.append("\nend EG.Generated.RawSrc\n")
     info = {"functions": len(em.listing), "macro_invocations": macro_counts, "raw_types": em.raw_types, "orders": em.orders,
             "untranslated": untranslated}
-    return "".join(text), info
+    return "".join(text), info, prog, em
+
+
+FB_FILE = "src/framebuffer.rs"
+FB_HEADER = """/-
+  EG.Generated.FbSrc — GENERATED by tools/tr_rawsrc.py from the Rust text of src/framebuffer.rs. DO NOT EDIT.
+
+  `buffer_size_bpp`, `Framebuffer::new`, the ten `set_pixel` (three expansions of `impl_bit!`, RawU8, six of `impl_bytes!`)
+  and the ten `DrawTarget::draw_iter`. Const generics `WIDTH`, `HEIGHT`, `N` and the data order are explicit arguments;
+  a colour `c: C` with `C: PixelColor<Raw = X>` is its raw value (`c.into()` = `color_into_raw`). Equivalence with the
+  hand-written model EG/Model/Framebuffer.lean: EG/Props/C10/Generated.lean.
+-/
+import EG.Generated.RawSrc
+set_option linter.unusedVariables false
+namespace EG.Generated.FbSrc
+open EG.RawSrcPrelude EG.Generated.RawSrc
+
+"""
+FB_ROOT_NAMES = ("new", "set_pixel", "draw_iter")
+
+
+def translate_fb(repo, prog, em):
+    p = os.path.join(repo, FB_FILE)
+    if not os.path.exists(p):
+        raise TrError(f"{FB_FILE}: file not found")
+    toks = tokenize(strip_comments(open(p).read(), FB_FILE), FB_FILE)
+    toks, counts = expand_macros(toks, FB_FILE)
+    scan_items(Cursor(toks), prog, FB_FILE)
+    start, lstart = len(em.out), len(em.listing)
+    st = prog.structs.get("Framebuffer")
+    if not isinstance(st, list):
+        raise TrError("struct Framebuffer not found")
+    fs = [(f, t) for f, t in st if t not in ("phantom", "unit")]
+    text = [FB_HEADER, "/-- `struct Framebuffer` (from the Rust declaration; `PhantomData` and `()` fields dropped) -/\nstructure Framebuffer where\n"
+            + "".join(f"  {f} : {em.lean_type(t)}\n" for f, t in fs) + "  deriving DecidableEq, Repr\n\n"]
+    em.need(em.find(None, "buffer_size_bpp", "roots"))
+    for k in list(prog.order):
+        it = prog.items[k]
+        if it.impl_type == "Framebuffer" and it.name in FB_ROOT_NAMES:
+            em.need(it)
+    text.append("\n".join(em.out[start:]))
+    untranslated = {}
+    for k, f in sorted(prog.items.items(), key=lambda kv: (kv[0][0] or "", kv[0][1] or "", kv[0][2])):
+        if f.rel == FB_FILE and k not in em.done:
+            untranslated.setdefault(f"impl {k[1] + ' for ' if k[1] else ''}{k[0]}" if k[0] else "free", []).append(k[2])
+    text.append("\n/-- functions / constants of src/framebuffer.rs that are NOT translated -/\n"
+                "def untranslated : List (String × List String) := [\n"
+                + ",\n".join(f'  ("{k}", [' + ", ".join(f'"{n}"' for n in v) + "])" for k, v in untranslated.items()) + "]\n")
+    text.append("\n/-- what was translated (Lean name, Rust origin) -/\ndef translated : List (String × String) := [\n"
+                + ",\n".join(f'  ("{a}", "{b}")' for a, b in em.listing[lstart:]) + "]\n")
+    text.append("\nend EG.Generated.FbSrc\n")
+    return "".join(text), {"functions": len(em.listing) - lstart, "macro_invocations": counts, "untranslated": untranslated}
+
+
+def failed_fb_file(reason):
+    r = reason.replace("\\", "\\\\").replace('"', '\\"').replace("\n", " ")
+    return ("/-\n  EG.Generated.FbSrc — GENERATED by tools/tr_rawsrc.py. THE TRANSLATION FAILED: src/framebuffer.rs contains a construct\n"
+            "  the translator does not know. No function is defined here, so the theorems of EG/Props/C10/Generated.lean do\n"
+            "  not build.\n-/\nnamespace EG.Generated.FbSrc\n\n"
+            f"def translationFailed : String := \"{r}\"\n\nend EG.Generated.FbSrc\n")
 
 
 def failed_file(reason):
@@ -1530,23 +1922,37 @@ def failed_file(reason):
 
 def generate(repo):
     try:
-        text, info = translate(repo)
-        return {"RawSrc.lean": text}, info
+        text, info, prog, em = translate(repo)
+        # the framebuffer is a part of its own: its failure breaks FbSrc.lean (C10's theorems) only
+        try:
+            fb_text, fb_info = translate_fb(repo, prog, em)
+            info["fb"] = fb_info
+        except TrError as ex:
+            fb_text, info["fb_failed"] = failed_fb_file(str(ex)), str(ex)
+        except RecursionError:
+            fb_text, info["fb_failed"] = failed_fb_file("recursion limit reached"), "recursion limit reached"
+        except Exception as ex:
+            fb_text, info["fb_failed"] = failed_fb_file(f"internal error {type(ex).__name__}: {ex}"), f"internal error {type(ex).__name__}: {ex}"
+        return {"RawSrc.lean": text, "FbSrc.lean": fb_text}, info
     except TrError as ex:
         reason = str(ex)
     except RecursionError:
         reason = "recursion limit reached while parsing"
     except Exception as ex:
         reason = f"internal error {type(ex).__name__}: {ex}"
-    return {"RawSrc.lean": failed_file(reason)}, {"failed": reason}
+    return {"RawSrc.lean": failed_file(reason), "FbSrc.lean": failed_fb_file("the raw data layer failed: " + reason)}, {"failed": reason}
 
 
 if __name__ == "__main__":
     import json
     repo = os.environ.get("EG_REPO", "/repo")
     if len(sys.argv) > 1 and sys.argv[1] == "--strict":
-        t, i = translate(repo)
+        t, i, prog, em = translate(repo)
         print(t)
+    elif len(sys.argv) > 1 and sys.argv[1] == "--fb":
+        t, i, prog, em = translate(repo)
+        t2, i2 = translate_fb(repo, prog, em)
+        print(t2)
     else:
         files, info = generate(repo)
         print(files["RawSrc.lean"])
